@@ -48,6 +48,7 @@ def s_case(gran):
                             st.lists(ev, min_size=1, max_size=12)),
         "tape": st.lists(st.integers(0, 3), max_size=30 if gran == "locks" else 8),
         "gran": st.just(gran),
+        "mif": st.sampled_from([None, 3, 4]),
     })
 
 
@@ -75,7 +76,11 @@ def _run(case, ctx, sim):
                             request_timeout=case["timeout"],
                             speculative_execution_policy=ConstantSpeculativeExecutionPolicy(case["spec_delay"], case["spec"])
                             if case["spec"] else None)
-    cluster = sim.make_cluster(addrs[:1], execution_profiles={EXEC_PROFILE_DEFAULT: prof})
+    cc = net.connection_class()
+    if case.get("mif"):
+        # few stream ids per connection, so that attempts also travel on stream id 0 and ids are reused
+        cc.max_in_flight = case["mif"]
+    cluster = sim.make_cluster(addrs[:1], execution_profiles={EXEC_PROFILE_DEFAULT: prof}, connection_class=cc)
     session = sim.call(cluster.connect, wait_for_all_pools=True)
     sim.settle()
     stmt = SimpleStatement("SELECT k FROM t", is_idempotent=case["idempotent"])
